@@ -505,7 +505,9 @@ func (d *Datastore) TransactionCancel(ctx context.Context, transactionId string)
 func loadIntendedStoreHighestPrio(ctx context.Context, tscc tree.TreeCacheClient, r *tree.RootEntry, pathKeySet *tree.PathSet, skipIntents []string) error {
 
 	// Get all entries of the already existing intent
-	cacheEntries := tscc.ReadCurrentUpdatesHighestPriorities(ctx, pathKeySet.GetPaths(), 2)
+	// the intents of the transaction are skipped, so to still see the best alternative
+	// one more priority level than intents are part of the transaction needs to be read
+	cacheEntries := tscc.ReadCurrentUpdatesHighestPriorities(ctx, pathKeySet.GetPaths(), uint64(len(skipIntents)+1))
 
 	flags := tree.NewUpdateInsertFlags()
 
